@@ -32,13 +32,20 @@ theorem DComp.structO_eopOnly (bso : Option Nat) (gs : List Comp) : (DComp.struc
 def sizeSide (bso : Option Nat) (gs : List Comp) : Prop :=
   ∀ bs, bso = some bs → Comps.cur gs 0 0 ≤ bs ∧ Comps.anyEop gs = false
 
+theorem DComp.structOM_okM (bso : Option Nat) (ms : List MComp) (hok : MComps.okAll (fun _ => True) ms)
+    (hn : Comps.namesOk (MComps.cs ms)) (hlast : Comps.eopLast (MComps.cs ms))
+    (hsz : sizeSide bso (MComps.cs ms)) : (DComp.structO bso (MComps.cs ms)).OkM (MComps.lastMid ms) := by
+  cases bso with
+  | none => exact DComp.structM_okM ms hok hn hlast
+  | some bs =>
+    exact DComp.withByteSize_okM bs _ _ _ (DComp.structM_okM ms hok hn hlast) rfl (by simp [DComp.struct]) (hsz bs rfl).1
+
 theorem DComp.structOM_ok (bso : Option Nat) (ms : List MComp) (hok : MComps.okAll (fun _ => True) ms)
     (hn : Comps.namesOk (MComps.cs ms)) (hlast : Comps.eopLast (MComps.cs ms)) (hmid : MComps.midNotLast ms)
     (hsz : sizeSide bso (MComps.cs ms)) : (DComp.structO bso (MComps.cs ms)).Ok := by
-  cases bso with
-  | none => exact DComp.structM_ok ms hok hn hlast hmid
-  | some bs =>
-    exact DComp.withByteSize_ok bs _ _ (DComp.structM_ok ms hok hn hlast hmid) rfl (by simp [DComp.struct]) (hsz bs rfl).1
+  have h := DComp.structOM_okM bso ms hok hn hlast hsz
+  rw [show MComps.lastMid ms = false from hmid] at h
+  exact h.toOk
 
 theorem DComp.structOM_endOk (bso : Option Nat) (ms : List MComp) (hok : MComps.okAll (fun _ => True) ms)
     (hend : Comps.endOkAll (MComps.cs ms)) (hlast : Comps.eopLast (MComps.cs ms)) (hsz : sizeSide bso (MComps.cs ms)) :
@@ -86,8 +93,8 @@ inductive Described2 : Comp → Bool → Prop
   | leading (l : LeadLeaf) : l.ok → Described2 (Comp.ofLeading l) false
   | struct (name : String) (bp : Option Nat) (bso : Option Nat) (ms : List MComp) :
       (∀ m ∈ ms, Described2 m.c m.mid) → Comps.namesOk (MComps.cs ms) → Comps.eopLast (MComps.cs ms) →
-      MComps.midNotLast ms → sizeSide bso (MComps.cs ms) →
-      Described2 (Comp.ofValue name bp (DComp.structO bso (MComps.cs ms))) false
+      sizeSide bso (MComps.cs ms) →
+      Described2 (Comp.ofValue name bp (DComp.structO bso (MComps.cs ms))) (MComps.lastMid ms)
   | staticField (name : String) (bp : Option Nat) (itemSize : Nat) (bso : Option Nat) (shape : List Param)
       (items : List (List MComp)) :
       (∀ k ∈ items, ∀ m ∈ k, Described2 m.c m.mid) →
@@ -137,12 +144,12 @@ theorem Described2.ok {g : Comp} {mid : Bool} (h : Described2 g mid) : (∀ P, g
   | minmaxFull l hl => exact ⟨fun P => (Comp.ofMinMaxFull_ok l hl).toM _ P, Comp.ofMinMaxFull_endOk l⟩
   | minmaxLast l hl => exact ⟨fun P => (Comp.ofMinMaxLast_ok l hl).toM _ P, Comp.ofMinMaxLast_endOk l hl⟩
   | leading l hl => exact ⟨fun P => (Comp.ofLeading_ok l hl).toM _ P, Comp.ofLeading_endOk l⟩
-  | struct name bp bso ms _ hn hlast hmid hsz ih =>
+  | struct name bp bso ms _ hn hlast hsz ih =>
     have hok := MComps.okAll_of_forall (fun _ => True) ms (fun m hm => (ih m hm).1 _)
     have hend : Comps.endOkAll (MComps.cs ms) := Comps.endOkAll_of_forall _ (fun g hg => by
       obtain ⟨m, hm, rfl⟩ := MComps.mem_cs hg
       exact (ih m hm).2)
-    exact ⟨fun P => (Comp.ofValue_ok name bp _ (DComp.structOM_ok bso ms hok hn hlast hmid hsz)).toM _ P,
+    exact ⟨fun P => Comp.ofValueM_ok name bp _ _ (DComp.structOM_okM bso ms hok hn hlast hsz) P,
       Comp.ofValue_endOk name bp _ (DComp.structOM_endOk bso ms hok hend hlast hsz)⟩
   | staticField name bp n bso shape items _ hside ih =>
     have hitems := structItems2_ok bso shape items ih (fun k hk => (hside k hk).1)
@@ -221,8 +228,9 @@ theorem mcomps_roundtrip_msg_cur (ms : List MComp) (trig : Option Bytes) (hneed 
     (henc : encodeMessage none (Comps.toParams (MComps.cs ms)) (.dict (Comps.values (MComps.cs ms))) trig true = .ok (pdu, 0)) :
     decodeMessage none (Comps.toParams (MComps.cs ms)) pdu true =
       .ok (.dict (Comps.pair (MComps.cs ms)).val, Comps.cur (MComps.cs ms) 0 0) := by
-  obtain ⟨s1, hrun, hcore, _⟩ := DComp.structM_encode_eq (ModelInv.top trig) ms hok hn hlast hmid modelFuel hneed
-    { trig := trig, isEndOfPdu := true } rfl (fun _ => rfl) ⟨rfl, Nat.le_refl _⟩
+  obtain ⟨s1, hrun, hcore, _⟩ := DComp.structM_encode_eq (ModelInv.top trig) ms hok hn hlast modelFuel hneed
+    { trig := trig, isEndOfPdu := true } rfl (fun _ => rfl)
+    (fun h => by rw [show MComps.lastMid ms = false from hmid] at h; cases h) ⟨rfl, Nat.le_refl _⟩
   have hcur := DComp.structM_enc_cursor ms hok { trig := trig, isEndOfPdu := true }
   refine (roundtrip_msg_core (DComp.struct (MComps.cs ms)) none _ rfl trig pdu (DComp.structM_good ms hok) ⟨s1, hrun, hcore⟩ ?_
     (fun hfit hp => DComp.structM_decode_eq ms hok modelFuel hneed { msg := pdu } rfl hfit hp) ?_ henc).1
